@@ -37,6 +37,12 @@ every subscription point `k`, both modes, every admissible element order for the
   kernel-checked counterexample; the unrestricted theorems `mirror_eq_*` hold for the repaired task
   (`if inner.done && inner.complete { break }`) and for consumption by hand.
   The list is not affected (its mirror starts with `done: false`): `mirror_eq_list` is about the code as is.
+* **F14** (new, outside the model: found by the predicate check on subscriptions obtained from mirrors) the
+  mirror task forwards every event to the mirror's own subscribers, including `InitialComplete`, which is
+  `#[serde(skip)]`; a remote subscriber of a mirror that has not yet completed its incremental initial
+  value is therefore closed with `RecvError::Closed`.  The theorems model a subscription to a mirror as a
+  subscription to the mirror's contents at that moment followed by the events it forwards; the
+  serialization failure is not part of the model.
 -/
 
 namespace Remoc.Robs
